@@ -58,4 +58,97 @@ theorem subOf_dcfg (n : NetDecision.Net) (h : SubOf (dcfg .fixed .constrained .f
         unfold dcfg
         rw [← ea, ← eb, ← ec]
 
+section facade
+attribute [local instance] sqrtFnOfSqrtField
+attribute [local instance 2000] scalarOfField
+attribute [local instance 3000] fieldTrig
+attribute [-simp] Gama.C06R.add_eq Gama.C06R.sub_eq Gama.C06R.mul_eq Gama.C06R.div_eq Gama.C06R.neg_eq Gama.C06R.zero_eq
+  Gama.C06R.one_eq Gama.C06R.lt_eq Gama.C06R.le_eq
+
+/-- the system handed over when no observation survives the revision of `N` -/
+noncomputable def npE (N : PE.Net ℝ) : NetProblem ℝ :=
+  { m := 0, n := 0, rows := #[], rhs := #[], clusters := npClusters (revise N), m0 := N.m0, minx := [] }
+
+noncomputable def asmE (N : PE.Net ℝ) : Asm ℝ :=
+  { np := npE N, idx := IdxState.init, list := unknownsList (revise N) IdxState.init }
+
+noncomputable def uE (N : PE.Net ℝ) : Unknowns ℝ := ⟨0, (asmE N).list, { revise N with idx := IdxState.init }, []⟩
+
+theorem npE_cofs (N : PE.Net ℝ) (h : activeClusters (npE N) = []) : cofs (npE N) = [] := by
+  unfold cofs; rw [h]; rfl
+
+theorem npE_prepare (N : PE.Net ℝ) (h : activeClusters (npE N) = []) : ∃ hh, prepare (npE N) = .ok hh := by
+  unfold prepare
+  rw [npE_cofs N h]
+  exact ⟨_, rfl⟩
+
+theorem peE (N : PE.Net ℝ) (hobs : revisedObs (revise N) = []) (hidx : (revise N).idx.resetPass (guardOf (revise N)) = IdxState.init)
+    (hact : activeClusters (npE N) = []) (hm : (MinX.feed (idxFn IdxState.init) (ptsOf (revise N))).2 = [])
+    (hfuel : N.points.length + 1 = 4)
+    (hs : ∀ hh : Hom ℝ, (SingularCoords.singularCoords hh.Ad (idxFn IdxState.init) (ptsOf (revise N))).1 = false) :
+    projectEquations N = .ok (npE N, uE N) := by
+  have hasm : assemble (revise N) = .ok (asmE N) := by
+    have hlin : linPass (revise N) (revisedObs (revise N)) ((revise N).idx.resetPass (guardOf (revise N)))
+        = .ok ⟨[], [], IdxState.init⟩ := by
+      rw [hobs, hidx]; rfl
+    unfold assemble
+    simp only [hlin]
+    rw [hobs]
+    rfl
+  obtain ⟨hh, hp⟩ := npE_prepare N hact
+  unfold projectEquations
+  rw [hfuel]
+  unfold peLoop
+  have hp' : prepare (asmE N).np = .ok hh := hp
+  have hs' : (SingularCoords.singularCoords hh.Ad (idxFn (asmE N).idx) (ptsOf (revise N))).1 = false := hs hh
+  have hm' : (MinX.feed (idxFn (asmE N).idx) (ptsOf (revise N))).2 = [] := hm
+  simp only [hasm, hp', hs', hm', Bool.false_eq_true, if_false]
+  rfl
+
+theorem npE_netHyp (N : PE.Net ℝ) (hact : activeClusters (npE N) = []) (hm0 : N.m0 ≠ 0) : NetHyp .gso (npE N) := by
+  have hrows : RowsOK (toProblem (npE N)) := fun i hi => absurd hi (Nat.not_lt_zero i)
+  have hPc : Sigma (npE N) * (0 : Matrix (Fin (toProblem (npE N)).m) (Fin (toProblem (npE N)).m) ℝ) = 1 := by
+    ext i j; exact absurd i.isLt (Nat.not_lt_zero _)
+  have hdim : (dimsN (npE N)).sum = (npE N).m := by
+    unfold dimsN; rw [npE_cofs N hact]; rfl
+  have hreg : Env.RegListOK (toProblem (npE N)) := by
+    intro l hl
+    have : l = [] := by
+      have h : Reg.subset [] = Reg.subset l := hl
+      injection h with h'; exact h'.symm
+    subst this
+    exact ⟨List.nodup_nil, fun k hk => by cases hk⟩
+  have hgap : RankGap (toProblem (npE N)).A (((npE N).m0 * (npE N).m0) • (0 : Matrix (Fin (toProblem (npE N)).m) (Fin (toProblem (npE N)).m) ℝ))
+      (toProblem (npE N)).S (1 / 8192) :=
+    ⟨fun k => absurd k.isLt (Nat.not_lt_zero _), fun g _ hne => (hne (funext fun i => absurd i.isLt (Nat.not_lt_zero _))).elim⟩
+  exact { rows := hrows, m0 := hm0, weight := ⟨0, hPc⟩
+          first := C01_net_solverhyp_of_gap (npE N) hdim hrows hm0 0 hPc hreg C01_gap_thresholds_default hgap .gso (by decide)
+          second := trivial }
+
+/-- what the decision layer sees of `project_equations()` on a configuration is the evaluated output -/
+theorem peWorld_prob_eq (base : PE.Net ℝ) (dnet : NetDecision.Net) (np0 : NetProblem ℝ) (u : Unknowns ℝ)
+    (h : projectEquations (withStatuses base dnet) = .ok (np0, u)) (np : NetProblem ℝ)
+    (hp : (peWorld base dnet).prob = some np) : np = np0 := by
+  unfold peWorld at hp
+  split at hp
+  · rw [h] at hp
+    exact (Option.some.inj hp).symm
+  · cases hp
+
+/-- **the four sub-configurations of `netWobs` on which no observation survives the revision**: `project_equations()` hands over
+    the empty system, and `NetHyp .gso` holds for it -/
+theorem empty_cfg_netHyp (zA zB zC : CStat)
+    (h : (zA = .unused ∧ zB = .unused) ∨ (zA = .unused ∧ zC = .unused) ∨ (zB = .unused ∧ zC = .unused))
+    (hA : zA = .fixed ∨ zA = .unused) (hB : zB = .constrained ∨ zB = .unused) (hC : zC = .free ∨ zC = .unused)
+    (np : NetProblem ℝ) (hp : (peWorld netWobs (dcfg zA zB zC)).prob = some np) : NetHyp .gso np := by
+  have hm0 : ∀ sA sB sC, (netWs sA sB sC).m0 ≠ 0 := fun _ _ _ => by show (2 : ℝ) ≠ 0; norm_num
+  rcases hA with rfl | rfl <;> rcases hB with rfl | rfl <;> rcases hC with rfl | rfl <;>
+    first
+    | (exfalso; simp at h; done)
+    | (have e := peWorld_prob_eq netWobs _ _ _ (peE _ rfl rfl rfl rfl rfl (fun _ => rfl)) np hp
+       rw [e]
+       exact npE_netHyp _ rfl (hm0 _ _ _))
+
+end facade
+
 end Gama.C06NZ.Ex
